@@ -147,6 +147,11 @@ def _mk_decision(n_other, dst_known):
       if not any([k_ == src for k_, v in ent]):
         out.append((src, in_port))
       return out
+    def flow_matches_this_frame_on_its_ingress_port(m):
+      # under proof from_packet is a callee (C03 extraction): the stub records which frame and which port it was given
+      if b.mode == "sym":
+        return m._from is pkt and m._port == in_port
+      return m.in_port == in_port and m.dl_src == pkt.src and m.dl_dst == pkt.dst and m.dl_type == etype
     def same_table(a, e):
       return len(a) == len(e) and all([any([x[0] == y[0] and x[1] == y[1] for y in e]) for x in a])
     return Case(run, [sw, ev], calls=cs, raises={}, ensures={
@@ -167,7 +172,8 @@ def _mk_decision(n_other, dst_known):
         lambda res: filtered() or multicast() or known_port() is None or known_port() == in_port or (
           one(of.ofp_flow_mod) and len(sent(b)[0].actions) == 1 and type(sent(b)[0].actions[0]) is of.ofp_action_output
           and sent(b)[0].actions[0].port == known_port() and sent(b)[0].idle_timeout == 10 and sent(b)[0].hard_timeout == 30
-          and sent(b)[0].data is pi and sent(b)[0].command == of.OFPFC_ADD),
+          and sent(b)[0].data is pi and sent(b)[0].command == of.OFPFC_ADD
+          and flow_matches_this_frame_on_its_ingress_port(sent(b)[0].match)),
     })
   u.__name__ = "packet_in_%d_other_entries_destination_%s" % (n_other, dst_known or "unknown")
   u.bound = "learning table with 0..2 entries besides the destination's; all addresses, ports, ethertypes symbolic"
@@ -177,3 +183,59 @@ def _mk_decision(n_other, dst_known):
 for _n in (0, 1, 2):
   for _d in (None, "same", "other"):
     _mk_decision(_n, _d)
+
+
+# ---------------------------------------------------------------- ofp_flow_mod.pack with the packet-in handed over as `data`
+
+def _pack_flow_mod(fm):
+  return fm.pack()
+
+
+@unit(P, target="pox.openflow.libopenflow_01:ofp_flow_mod.pack (data = packet-in)")
+def flow_mod_hands_the_packet_back(b):
+  """the learning switch sends ONE flow-mod with msg.data = the packet-in: a buffered packet travels as the flow-mod's
+  buffer id; an unbuffered one follows the flow-mod behind a barrier as a packet-out to OFPP_TABLE with the whole frame"""
+  frame = b.bytes("frame", None, 60, 1514)
+  n = len(frame) if b.mode == "conc" else frame.length()
+  in_port = b.int("in_port", 1, 0xff00)
+  out_port = b.int("out_port", 1, 0xff00)
+  buffered = b.bool("buffered")
+  buffer_id = b.int("buffer_id", 0, 0xfffffffe)
+  pi = b.new(of.ofp_packet_in)
+  b.set(pi, "in_port", in_port)
+  b.set(pi, "_data", frame)
+  # a buffered packet-in usually carries only the first miss_send_len bytes: its total length may exceed its data
+  extra = b.int("bytes_kept_in_the_switch_buffer", 0, 9000)
+  if b.mode == "sym":
+    from pyvc.values import Union
+    b.set(pi, "_buffer_id", Union([(buffered, buffer_id), (b.Not(buffered), of.NO_BUFFER)]))
+    b.set(pi, "_total_len", b.If(buffered, n + extra, n))
+  else:
+    pi._buffer_id = buffer_id if buffered else of.NO_BUFFER
+    pi._total_len = n + extra if buffered else n
+  fm = b.new(of.ofp_flow_mod)
+  act = b.new(of.ofp_action_output)
+  b.set(act, "port", out_port)
+  b.set(fm, "actions", b.list([act]))
+  b.set(fm, "idle_timeout", 10)
+  b.set(fm, "hard_timeout", 30)
+  b.set(fm, "data", pi)
+  def be(v, k_):
+    return bytes([(v >> (8 * (k_ - 1 - i))) % 256 for i in range(k_)]) if b.mode == "conc" else None
+  return Case(_pack_flow_mod, [fm], raises={}, ensures={
+    "a_buffered_packet_travels_as_the_flow_mods_buffer_id":
+      lambda res: not buffered or (len(res) == 80 and res[0] == 1 and res[1] == 14 and res[2] * 256 + res[3] == 80
+                                   and ((res[64] * 256 + res[65]) * 256 + res[66]) * 256 + res[67] == buffer_id),
+    "an_unbuffered_packet_follows_behind_a_barrier_as_a_packet_out_to_the_table":
+      lambda res: buffered or (
+        len(res) == 80 + 8 + 24 + n
+        and res[1] == 14 and res[2] * 256 + res[3] == 80 and res[64] == 255 and res[65] == 255 and res[66] == 255 and res[67] == 255
+        and res[80] == 1 and res[81] == 18 and res[82] * 256 + res[83] == 8
+        and res[88] == 1 and res[89] == 13 and res[90] * 256 + res[91] == 24 + n
+        and res[96] == 255 and res[97] == 255 and res[98] == 255 and res[99] == 255
+        and res[100] * 256 + res[101] == in_port and res[102] * 256 + res[103] == 8
+        and res[104] * 256 + res[105] == 0 and res[106] * 256 + res[107] == 8 and res[108] * 256 + res[109] == of.OFPP_TABLE
+        and res[112:] == frame),
+    "the_flow_mod_keeps_its_output_action": lambda res: res[72] * 256 + res[73] == 0 and res[74] * 256 + res[75] == 8
+                                                          and res[76] * 256 + res[77] == out_port,
+  })
